@@ -10,7 +10,11 @@
 (* enumerate the whole bounded offer space; -simulate samples a larger one. *)
 EXTENDS Answer, Json, SequencesExt
 
-CONSTANTS MaxSec,        \* offers have 1..MaxSec sections
+CONSTANTS MinSec, MaxSec, \* offers have MinSec..MaxSec sections
+          Sims,          \* subset of BOOLEAN: video sections may carry rid/simulcast lines
+          Port0s,        \* subset of BOOLEAN: sections may be offered rejected (port 0)
+          Extras,        \* subset of {"none","sip","browser"}: extra lines a real peer sends (bandwidth, ptime,
+                         \* msid, ssrc-group, candidates ...) - they matter for the parse/print round trip
           Kinds,         \* subset of {"audio","video","application","image"}
           MidSchemes,    \* subset of {"numeric","named","absent"}
           BundleModes,   \* subset of {"none","all","first2"}
@@ -51,9 +55,9 @@ VideoCodec(pt) ==
     [] pt = 98  -> "h264/90000"
     [] pt = 99  -> "rtx/90000"          \* apt=98
     [] pt = 100 -> "vp8/90000"          \* VP8 on another dynamic number
-    [] pt = 102 -> "h264/90000"         \* H264 on the number the local side uses for VP8? no: 96 below
+    [] pt = 103 -> "rtx/90000"          \* apt=100
     [] OTHER    -> "unknown/90000"
-Apt(pt) == IF pt = 97 THEN 96 ELSE IF pt = 99 THEN 98 ELSE 0
+Apt(pt) == IF pt = 97 THEN 96 ELSE IF pt = 99 THEN 98 ELSE IF pt = 103 THEN 100 ELSE 0
 
 PtsOf(kind, s) ==
   [i \in DOMAIN s |-> <<s[i], IF kind = "audio" THEN AudioCodec(s[i]) ELSE VideoCodec(s[i])>>]
@@ -68,46 +72,53 @@ MidOf(scheme, kind, i) ==
                                 [] kind = "application" -> "d" [] OTHER -> "i") \o ToString(i - 1)
     [] OTHER              -> ""
 
-Section(kind, pts, ext, dir, mux) ==
+Section(kind, pts, ext, dir, mux, sim, p0) ==
   [ kind |-> kind, mid |-> MidOf(desc.mids, kind, Len(secs) + 1),
     pts |-> IF kind \in RtpKinds THEN PtsOf(kind, pts) ELSE <<>>,
     rtx |-> IF kind \in RtpKinds THEN RtxOf(kind, pts) ELSE <<>>,
     ext |-> IF kind \in RtpKinds THEN ext ELSE <<>>,
     dir |-> IF kind \in RtpKinds THEN dir ELSE "sendrecv",
     mux |-> IF kind \in RtpKinds THEN mux ELSE FALSE,
-    setup |-> desc.setup, port0 |-> FALSE,
+    setup |-> desc.setup, port0 |-> p0, sim |-> (kind = "video" /\ sim),
     fmts |-> CASE kind = "application" -> <<"webrtc-datachannel">> [] kind = "image" -> <<"t38">> [] OTHER -> <<>> ]
 
 Cfgs == [mode : Modes, compat : Compats, caps : Caps, pre : Pres, neg : Negs]
 
 DescOptions(nn, c) ==
-  {d \in [mids : MidSchemes, bundle : BundleModes, setup : Setups] :
+  {d \in [mids : MidSchemes, bundle : BundleModes, setup : Setups, extras : Extras] :
      /\ d.mids = "absent" => d.bundle = "none"
      /\ d.bundle = "first2" => nn >= 3
-     /\ (d.setup = "none") = (c.mode # "WebRtc")}
+     /\ (d.setup = "none") = (c.mode # "WebRtc")
+     \* "swapped": the local side made the previous offer (numeric mids) and the peer, whose answer said
+     \* setup:active, now re-offers: it keeps its role or offers actpass
+     /\ c.neg = "swapped" => (d.mids = "numeric" /\ d.setup \in {"actpass", "active", "none"})}
 
 Init ==
   /\ secs = <<>>
   /\ IF Samples = 0
      THEN /\ k = 0
-          /\ n \in 1..MaxSec
+          /\ n \in MinSec..MaxSec
           /\ cfg \in Cfgs
           /\ desc \in DescOptions(n, cfg)
           /\ rnd = <<0, 0>>
      ELSE \* one pseudo-random behaviour per k
           /\ k \in 1..Samples
-          /\ n = Pick(1..MaxSec, R0(k))
+          /\ n = Pick(MinSec..MaxSec, R0(k))
           /\ cfg = Pick(Cfgs, NextR(R0(k)))
           /\ desc = Pick(DescOptions(n, cfg), NextR(NextR(R0(k))))
           /\ rnd = NextR(NextR(NextR(R0(k))))
 
 KindOptions(kind) ==
   IF kind \in RtpKinds
-  THEN {Section(kind, pts, ext, dir, mux) :
-          pts \in (IF kind = "audio" THEN AudioPts ELSE VideoPts), ext \in ExtSeqs, dir \in Dirs, mux \in Muxes}
+  THEN {Section(kind, pts, ext, dir, mux, sim, p0) :
+          pts \in (IF kind = "audio" THEN AudioPts ELSE VideoPts), ext \in ExtSeqs, dir \in Dirs, mux \in Muxes,
+          sim \in (IF kind = "video" THEN Sims ELSE {FALSE}), p0 \in Port0s}
   ELSE \* one data / fax section at most
        IF \E i \in DOMAIN secs : secs[i].kind = kind THEN {}
-       ELSE {Section(kind, <<>>, <<>>, "sendrecv", FALSE)}
+       ELSE {Section(kind, <<>>, <<>>, "sendrecv", FALSE, FALSE, p0) : p0 \in Port0s}
+
+\* in a sample one section in five is offered rejected (when the scenario allows rejected sections at all)
+P0(r) == IF Port0s = {TRUE} THEN TRUE ELSE (TRUE \in Port0s /\ Val(r) % 5 = 0)
 
 AddSection ==
   /\ Len(secs) < n
@@ -119,13 +130,15 @@ AddSection ==
               r2 == NextR(r1)
               r3 == NextR(r2)
               r4 == NextR(r3)
+              r5 == NextR(r4)
+              r6 == NextR(r5)
           IN \* the components are drawn one by one (cheaper than drawing from the product set)
              /\ secs' = Append(secs,
                    IF kind \in RtpKinds
                    THEN Section(kind, Pick(IF kind = "audio" THEN AudioPts ELSE VideoPts, r1), Pick(ExtSeqs, r2),
-                                Pick(Dirs, r3), Pick(Muxes, r4))
-                   ELSE Section(kind, <<>>, <<>>, "sendrecv", FALSE))
-             /\ rnd' = NextR(r4)
+                                Pick(Dirs, r3), Pick(Muxes, r4), Pick(Sims, r5), P0(r6))
+                   ELSE Section(kind, <<>>, <<>>, "sendrecv", FALSE, FALSE, P0(r6)))
+             /\ rnd' = NextR(r6)
   /\ UNCHANGED <<n, desc, cfg, k>>
 
 Next == AddSection
@@ -139,6 +152,7 @@ BundleOf(ss, mode) ==
     [] OTHER           -> <<>>
 
 Offer == [secs |-> secs, bundle |-> BundleOf(secs, desc.bundle)]
+\* a rejected section cannot be in the group it was never part of: keep the model simple and leave it in (legal: bundle-only)
 
 (* the offer that established the session before a "subsequent" negotiation: same sections with the  *)
 (* full codec menu, everything else as in the offer under test                                      *)
@@ -148,18 +162,28 @@ RichSecs ==
      IF secs[i].kind \in RtpKinds
      THEN [secs[i] EXCEPT !.pts = PtsOf(secs[i].kind, FullPts(secs[i].kind)),
                           !.rtx = RtxOf(secs[i].kind, FullPts(secs[i].kind)),
-                          !.dir = "sendrecv"]
-     ELSE secs[i]]
+                          !.dir = "sendrecv", !.port0 = FALSE]
+     ELSE [secs[i] EXCEPT !.port0 = FALSE]]
 (* neg = "subsequent": the same sections were negotiated before with the full codec menu (re-INVITE narrowing   *)
 (* the codecs / changing directions); neg = "grow": the last section is new in this offer (renegotiation that  *)
 (* adds an m= section) - for a single-section offer that is the same as "subsequent".                          *)
+(* neg = "swapped": the local side was the offerer of the previous negotiation; `prev` is then the peer's ANSWER    *)
+(* to the local offer: one codec per section that every capability profile offers, everything live, setup:active   *)
+SwappedSecs ==
+  [i \in DOMAIN secs |->
+     IF secs[i].kind \in RtpKinds
+     THEN LET pl == IF secs[i].kind = "video" THEN <<96>> ELSE IF cfg.caps = "pcmu" THEN <<0>> ELSE <<111>>
+          IN [secs[i] EXCEPT !.pts = PtsOf(secs[i].kind, pl), !.rtx = <<>>, !.ext = <<>>, !.dir = "sendrecv",
+                             !.port0 = FALSE, !.sim = FALSE, !.mux = TRUE,
+                             !.setup = IF desc.setup = "none" THEN "none" ELSE "active"]
+     ELSE [secs[i] EXCEPT !.port0 = FALSE, !.setup = IF desc.setup = "none" THEN "none" ELSE "active"]]
 Previous ==
   LET keep == IF cfg.neg = "grow" /\ Len(secs) >= 2 THEN Len(secs) - 1 ELSE Len(secs)
-      ps   == SubSeq(RichSecs, 1, keep)
+      ps   == IF cfg.neg = "swapped" THEN SwappedSecs ELSE SubSeq(RichSecs, 1, keep)
   IN [ secs |-> ps,
        bundle |-> SelectSeq(BundleOf(secs, desc.bundle), LAMBDA m : \E i \in DOMAIN ps : ps[i].mid = m) ]
 
-OfferRec == [offer |-> Offer, cfg |-> cfg, prev |-> Previous]
+OfferRec == [offer |-> Offer, cfg |-> cfg, prev |-> Previous, extras |-> desc.extras]
 EmitOffer == Done => PrintT(<<"OFFER", ToJson(OfferRec)>>)
 
 -----------------------------------------------------------------------------
@@ -168,7 +192,8 @@ AudioPtsSmall == {<<0>>, <<111, 0>>, <<9, 101>>, <<96, 8>>}
 AudioPtsFull  == {<<0>>, <<8>>, <<111>>, <<111, 0>>, <<0, 8, 101>>, <<9, 101>>, <<111, 9, 101>>, <<96, 8>>, <<96>>,
                   <<8, 0, 9, 111, 101>>}
 VideoPtsSmall == {<<96>>, <<96, 97>>, <<98, 99, 100>>}
-VideoPtsFull  == {<<96>>, <<96, 97>>, <<98>>, <<98, 99>>, <<100>>, <<98, 99, 100>>, <<96, 97, 98, 99>>}
+VideoPtsFull  == {<<96>>, <<96, 97>>, <<98>>, <<98, 99>>, <<100>>, <<98, 99, 100>>, <<96, 97, 98, 99>>,
+                  <<100, 103>>, <<96, 97, 98, 99, 100, 103>>, <<97, 96, 103, 100>>}
 ExtSmall == {<<>>, <<<<2, "abs-send-time">>, <<3, "sdes-mid">>>>}
 ExtFull  == {<<>>,
              <<<<1, "audio-level">>>>,
@@ -197,5 +222,5 @@ RejectAllValid == Done => ValidAnswer(Offer, cfg.mode, RejectAll(Offer))
 ReferenceValid == Done => ValidAnswer(Offer, cfg.mode, Reference(Offer, cfg.caps))
 (* ... and it is not trivially true: echoing the offer back is NOT valid for a send-only offer *)
 EchoOfferInvalidWhenSendOnly ==
-  (Done /\ \E i \in DOMAIN secs : secs[i].dir = "sendonly") => ~ValidAnswer(Offer, cfg.mode, Offer)
+  (Done /\ \E i \in DOMAIN secs : secs[i].dir = "sendonly" /\ ~secs[i].port0) => ~ValidAnswer(Offer, cfg.mode, Offer)
 =============================================================================
